@@ -69,10 +69,29 @@ def may_raise(node: ast.AST) -> bool:
 SUPPRESS_NAMES = {"suppress", "contextlib.suppress"}
 
 
+def _exc_names(at: ast.AST, elts: list[ast.expr], depth: int = 0) -> list[str]:
+    """Exception class names of a handler / suppress() argument list; a name (or `*name`) bound once at module level to a tuple of exception
+    classes stands for its elements (`_ALIAS_ERRORS = (AliasResolutionError, CyclicAliasError)`)."""
+    mod = at
+    while getattr(mod, "_parent", None) is not None:
+        mod = mod._parent  # type: ignore[attr-defined]
+    out: list[str] = []
+    for e in elts:
+        inner = e.value if isinstance(e, ast.Starred) else e
+        if isinstance(inner, ast.Name) and isinstance(mod, ast.Module) and depth < 3:
+            defs = [st for st in mod.body if isinstance(st, (ast.Assign, ast.AnnAssign)) and st.value is not None and any(
+                isinstance(t, ast.Name) and t.id == inner.id for t in (st.targets if isinstance(st, ast.Assign) else [st.target]))]
+            if len(defs) == 1 and isinstance(defs[0].value, ast.Tuple):
+                out += _exc_names(at, list(defs[0].value.elts), depth + 1)
+                continue
+        out.append(dotted(inner) or unparse(e))
+    return out
+
+
 def suppress_types(item: ast.withitem) -> list[str] | None:
     ce = item.context_expr
     if isinstance(ce, ast.Call) and dotted(ce.func) in SUPPRESS_NAMES:
-        return [dotted(a) or unparse(a) for a in ce.args]
+        return _exc_names(ce, list(ce.args))
     return None
 
 
@@ -396,8 +415,8 @@ def handler_types(handler: ast.ExceptHandler) -> list[str] | None:
     if handler.type is None:
         return None
     if isinstance(handler.type, ast.Tuple):
-        return [dotted(e) or unparse(e) for e in handler.type.elts]
-    return [dotted(handler.type) or unparse(handler.type)]
+        return _exc_names(handler, list(handler.type.elts))
+    return _exc_names(handler, [handler.type])
 
 
 def implied(expr: ast.expr, branch: bool) -> list[tuple[ast.expr, bool]]:
